@@ -41,6 +41,13 @@ func sanitizeSelectionSet(ctx *PlanningContext, selectionSet ast.SelectionSet, i
 			var addedFields []string
 			childSelectionSet, addedFields = addScrubFieldsToSelectionSet(ctx, childSelectionSet, s.TypeCondition)
 			for _, f := range addedFields {
+				// objects never have an abstract type, set it for each type they can have
+				if t := ctx.Schema.Types[s.TypeCondition]; t != nil && (t.Kind == ast.Interface || t.Kind == ast.Union) {
+					for _, pt := range ctx.Schema.PossibleTypes[t.Name] {
+						scrubFields.Set(insertionPoint, pt.Name, f)
+					}
+					continue
+				}
 				scrubFields.Set(insertionPoint, s.TypeCondition, f)
 			}
 
